@@ -461,6 +461,23 @@ func (e *Exec) conv(fr *frame, tdst, tsrc types.Type, x Value) Value {
 		}
 		if isString(ud) {
 			// string(rune)
+			if !xt.IsConst() {
+				r32 := c.Resize(xt, 32, sk.signed)
+				if !sk.signed && sk.w > 32 {
+					// values above MaxRune must become RuneError: saturate
+					big := c.Cmp(OpULt, c.Const(sk.w, 0x10FFFF), xt)
+					r32 = c.Ite(big, c.Const(32, 0x7fffffff), r32)
+				} else if sk.signed && sk.w > 32 {
+					out := c.Or(c.Cmp(OpSLt, xt, c.Const(sk.w, 0)), c.Cmp(OpSLt, c.Const(sk.w, 0x10FFFF), xt))
+					r32 = c.Ite(out, c.Const(32, 0x7fffffff), r32)
+				}
+				buf := e.call(fr, e.eng.stdFunc("unicode/utf8", "AppendRune"), []Value{Slice{nil: true}, r32}).(Slice)
+				ts := make([]*Term, len(buf.v))
+				for i, b := range buf.v {
+					ts[i] = b.(*Term)
+				}
+				return strFromTerms(ts)
+			}
 			v := e.concreteTerm(fr, xt, "integer to string conversion")
 			var r rune
 			if sk.signed {
